@@ -324,6 +324,11 @@ def loop_summary(eng, n, states, func):
                     head.assume(le(h, h0))
             # one iteration
             trues = [s for t, s in eng.cond(cond, head.copy(), func) if t]
+            if not trues:
+                # no iteration is possible from this state (the counter starts at or beyond its bound): the loop
+                # writes nothing
+                entries.append((s_in, None))
+                continue
             if len(trues) != 1:
                 return False
             s1 = trues[0]
@@ -381,7 +386,8 @@ def loop_summary(eng, n, states, func):
         eng.loop_depth = depth
         del eng.obligations[mark:]
     for s_in, e in entries:
-        s_in.wlog.append(e)
+        if e is not None:
+            s_in.wlog.append(e)
     return bool(entries)
 
 
